@@ -13,6 +13,8 @@
 (*   bdecl   : "none" | "optional" | "required"   what the operation declares as requestBody          *)
 (*   body    : "none" | "empty" | "pass" | "fail" | "otherct" | "badjson"  what the request carries     *)
 (*   multi, exclBody, exclQuery, authReadsBody : BOOLEAN                   *)
+(*   prefs   : "none" | "path" | "op" | "both": the parameters of that level are $refs to               *)
+(*             components.parameters (the contract does not look at it)                               *)
 (*   opts    : "plain" | "skipdefaults" | "exclreadonly" | "nil": options the statement does not      *)
 (*             mention leave the verdict alone; "nil" = no Options value at all (hence no callback:   *)
 (*             only generated where the security list in effect is empty)                             *)
@@ -76,11 +78,17 @@ Accepts(c) == FailingParts(c) = {}
 (* View(c, s) is the case as that validation sees it.                                                *)
 View(c, s) == [c EXCEPT !.pparams = s.pparams, !.oparams = s.oparams, !.opSec = s.opSec, !.docSec = s.docSec, !.bdecl = s.bdecl]
 StepOf(c, via) == [via |-> via, pparams |-> c.pparams, oparams |-> c.oparams, opSec |-> c.opSec, docSec |-> c.docSec, bdecl |-> c.bdecl]
-(* what a step may change: a shared Operation value carries its parameters, security and body; a     *)
-(* sibling operation lives under the same path-level parameters and document                         *)
-StepWellFormed(c, prev, s) ==
-   CASE s.via = "share"   -> s.oparams = prev.oparams /\ s.opSec = prev.opSec /\ s.docSec = prev.docSec /\ s.bdecl = prev.bdecl
-     [] s.via = "sibling" -> s.pparams = prev.pparams /\ s.docSec = prev.docSec
+(* what a step may change.  Cur is the content of the first route when the step is taken (edits stay until   *)
+(* "back" restores the original): a shared Operation value carries its parameters, security and body as they    *)
+(* are now; a sibling operation lives under the path item's current parameters and the current document         *)
+RECURSIVE CurAt(_, _)
+CurAt(c, i) ==
+   IF i = 1 THEN StepOf(c, "cur")
+   ELSE LET s == c.hist[i - 1] IN
+        IF s.via = "edit" THEN s ELSE IF s.via = "back" THEN StepOf(c, "cur") ELSE CurAt(c, i - 1)
+StepWellFormed(c, cur, s) ==
+   CASE s.via = "share"   -> s.oparams = cur.oparams /\ s.opSec = cur.opSec /\ s.docSec = cur.docSec /\ s.bdecl = cur.bdecl
+     [] s.via = "sibling" -> s.pparams = cur.pparams /\ s.docSec = cur.docSec
      [] s.via = "edit"    -> TRUE
      [] s.via = "back"    -> s = StepOf(c, "back")
      [] OTHER -> FALSE
